@@ -493,6 +493,9 @@ def run_for(pid, tier="quick", seed=0, replay_path=None):
         if ln["tid"] in rejects:
             pub = {"program": {k: v for k, v in c.items() if k != "cid"}, "ops": rel.ops_of(c["q"]) if "q" in c and not c.get("special") else [], "stage": ln.get("stage"),
                    "cls": ln.get("cls", ""), "kind": ln["kind"], "q": c.get("q", {"op": "none"}), "div_has_null": bool(NULL in (ln.get("div") or []))}
+            if "schemas" in ln:
+                strip = lambda sch: {k: v for k, v in sch.items() if k != "iname"}
+                pub["stage_diff_only_iname"] = bool(all(strip(x) == strip(ln["schemas"][0]) for x in ln["schemas"]))
             det = {k: ln[k] for k in ("np", "known", "div", "parts", "decl", "pschemas", "rschema", "schemas", "stages", "pairs", "desc") if k in ln}
             if ln["kind"] == "graph":
                 det = {"nkeys": ln["nkeys"]}
